@@ -148,7 +148,27 @@ PROPS["C03"] = dict(
                "on small grids the complete matrices are probed and compared entrywise with the documented stencil. "
                "Exploration over generated inputs.",
     level_note="Trusted: the reference operator harness/common/refop.h (its mixed-derivative corner weights follow the "
-               "documented stencil; its consistency with the PDE is checked separately by C02/C05), the constant c=256 "
+               "documented stencil; its consistency with the PDE is checked separately by C02/C05), the constant c=32 "
                "(observed maxima in the evidence), the DomainGeometry/DensityProfile virtual functions (validated by C19).",
     assumptions=["Shafranov parameters satisfy 2*delta < 0.9*(1-kappa) so that det DF stays away from zero"],
+)
+
+PROPS["C05"] = dict(
+    harness="c05_spd", flavour="rel",
+    quick=dict(workers=8, cases=3000, min_nontrivial=300),
+    thorough=dict(workers=16, cases=200000, min_nontrivial=3000, budget_s=3000),
+    rule="Grids/geometries/profiles/boundary modes as C03 (level 0 only); vector pairs x,y zeroed on Dirichlet nodes from "
+         "normal, smooth, unit, spikes, huge dynamic range, constant, checkerboard, origin-circle spike and 3 steps of "
+         "inverse iteration through the direct solver (approximate lowest eigenvector); give (cached and uncached) and "
+         "take, threads 1,2,3,5,16. 1 in 4 small grids (<=400 nodes) is probed: full matrix, entrywise symmetry of the "
+         "interior block and long double Cholesky. Non-trivial: non-circular geometry (non-zero mixed terms) or "
+         "non-uniform grid. Distinct: (dims, geometry, profile, BC, #circles, threads, vector kinds, probed).",
+    technique="property-based testing (rapidcheck); algebraic-law oracle (bilinear symmetry, positivity) with rounding bounds, plus entrywise symmetry and Cholesky of probed matrices",
+    level_text="For generated operators the bilinear form is evaluated through the real residual implementations: "
+               "|<Ax,y>-<x,Ay>| must stay below a per-case rounding bound and <Ax,x> must be positive beyond it, also "
+               "for adversarial vectors; on small grids the property is decided for that operator by probing the whole "
+               "matrix (entrywise symmetry, Cholesky). Exploration over generated operators.",
+    level_note="Trusted: rounding-bound constant c=32 with magnitudes from the reference operator; long double Cholesky. "
+               "A quadratic form within the rounding bound of zero is counted as inconclusive, not as a failure.",
+    assumptions=["the mapping is a diffeomorphism on the grid (cases with det DF = 0 at a node are discarded and counted)"],
 )
